@@ -32,6 +32,7 @@ from sympy import (
     acoth,
     acsc,
     acsch,
+    arg,
     asec,
     asech,
     asin,
@@ -176,6 +177,7 @@ SPECIAL_FUNCS = {
     "acos": acos,
     "atan": atan,
     "atan2": atan2,
+    "arg": arg,
     "acot": acot,
     "asec": asec,
     "acsc": acsc,
